@@ -177,6 +177,18 @@ Definition last_sol (first : solution) (rest : list solution) : solution := last
 Definition answer_of (first : solution) (rest : list solution) : solution :=
   mkSol (sP (last_sol first rest)) (sF (last_sol first rest)) (sDual first).
 
+(** *** what the CVXPY wrapper hands to the solver (cvxpy_wrapper.py): [G >> 0], one row per scalar constraint, and
+    per n x n LMI one [M >> 0] plus n^2 entry equalities; variables: F, G and one M per LMI.  The problem of a
+    dimension-reduction heuristic (prepare_heuristic + heuristic) is THAT wrapper's list plus exactly ONE bound row
+    [objective >= wc - tol], over the same variables.  [sizes]: 0 for a scalar constraint, n for an n x n LMI. *)
+Definition cvx_rows_sizes (sizes : list nat) : nat :=
+  S (list_sum (map (fun n => match n with O => 1%nat | _ => S (n * n)%nat end) sizes)).
+Definition cvx_heuristic_rows_sizes (sizes : list nat) : nat := S (cvx_rows_sizes sizes).
+Definition cvx_vars_sizes (sizes : list nat) : nat :=
+  (2 + length (filter (fun n => negb (Nat.eqb n 0)) sizes))%nat.
+Definition dump_cvx (sizes : list nat) : D :=
+  DL [DN (cvx_rows_sizes sizes); DN (cvx_heuristic_rows_sizes sizes); DN (cvx_vars_sizes sizes)].
+
 (** what the wrapper received, item by item *)
 Definition dump_sent_item (st : est) (r : nat) : D :=
   match get_obj st r with
